@@ -243,6 +243,47 @@ theorem C08_clear_effect_reachable (thr : Int) (evs1 evs2 : List Ev)
   rw [hrun]
   exact ⟨a1, a2⟩
 
+/-! ## "ResumeJob re-activates it" at full strength — FALSE for a run-once job paused before its fire time
+
+`C08_resume_from_now` describes every SUCCESSFUL `ResumeJob`. The property's sentence promises more: a paused job
+can be re-activated. `ScheduleJob` has already asked a `RunOnceTrigger` for its single fire time; `PauseJob` parks the
+entry; `ResumeJob` asks the trigger again "from the moment of resumption" and gets the trigger's own error. The call
+fails, the registry is unchanged (C09), and the job stays paused for ever although it never ran. Recorded as known
+finding `paused-run-once` (the harness replays the witness on the real code in every run). -/
+
+/-- full strength: whenever a job is listed as paused, `ResumeJob` succeeds -/
+def ResumeAlwaysReactivates (s : SState) (now : Int) (g n : String) : Prop :=
+  (∃ e ∈ s.q.toList, e.group = g ∧ e.name = n ∧ e.suspended = true) → (resume s now true g n).2.1 = none
+
+def exOnce : SchedArgs := { group := "g", name := "once", tag := 9, trig := some (.runOnce 3600 false) }
+
+/-- schedule a run-once job (fire time 0 + 3600), pause it at once -/
+def exPausedOnce : SState := (run 5 {} [.schedule 0 exOnce, .pause true "g" "once"]).1
+
+theorem exPausedOnce_listed : exPausedOnce.q.toList.map (fun e => (e.name, e.prio, e.suspended)) =
+    [("once", maxInt64, true)] := by decide +kernel
+
+/-- `ResumeJob` answers the trigger's error and leaves everything as it was -/
+theorem exPausedOnce_resume : (resume exPausedOnce 10 true "g" "once").2.1 = some .triggerError ∧
+    (resume exPausedOnce 10 true "g" "once").1.q.toList.map (fun e => (e.name, e.prio, e.suspended)) =
+      [("once", maxInt64, true)] := by decide +kernel
+
+/-- **the full-strength clause does not hold** (known finding `paused-run-once`) -/
+theorem C08_resume_run_once_fails : ¬ ResumeAlwaysReactivates exPausedOnce 10 "g" "once" := by
+  intro h
+  have hl := exPausedOnce_listed
+  have hr := exPausedOnce_resume.1
+  have : (resume exPausedOnce 10 true "g" "once").2.1 = none := by
+    apply h
+    have : ∃ e ∈ exPausedOnce.q.toList, (e.name, e.prio, e.suspended) = ("once", maxInt64, true) ∧ e.group = "g" := by
+      decide +kernel
+    obtain ⟨e, he, h1, h2⟩ := this
+    refine ⟨e, he, h2, ?_, ?_⟩
+    · exact congrArg (·.1) h1
+    · exact congrArg (·.2.2) h1
+  rw [this] at hr
+  cases hr
+
 /-! ## non-vacuity -/
 namespace C08Ex
 
